@@ -119,6 +119,14 @@ class CellParser(MCNP_Parser):
         else:
             left = next(node_iter)
         for node in node_iter:
+            if node.never_pad:
+                # a value that the shortcut generated: it is written as a number of its own
+                value = node.value
+                if float(value).is_integer():
+                    value = int(value)
+                node = syntax_node.ValueNode(
+                    str(value), float, syntax_node.PaddingNode(" ")
+                )
             new_tree = syntax_node.GeometryTree(
                 "intersection",
                 {"left": left, "operator": syntax_node.PaddingNode(), "right": node},
